@@ -8,9 +8,9 @@ KEYS_QUICK = "none,oct:64,oct:32,rsa:2048,ec:P-256,ec:P-384,ec:secp256k1,ec:brai
 
 def spec(tier):
     if tier == "thorough":
-        return ("prov=0,1;route=0..10;cfg=0..15;keys=%s;kalg=-1..15;pub=0,1;hdr=0..63;sig=0..5;op=v,g" % KEYS_FULL)
+        return ("prov=0,1;route=0..11;cfg=0..15;keys=%s;kalg=-1..15;pub=0,1;hdr=0..63;sig=0..5;op=v,g" % KEYS_FULL)
     # quick: key-alg axis reduced to {absent, "none", one per family, unknown}; header variants reduced
-    return ("prov=0,1;route=0,1,2,3,5,6,7,8,9,10;cfg=0..15;keys=%s;kalg=-1,0,1,4,7,8,10,14,15;pub=0,1;"
+    return ("prov=0,1;route=0,1,2,3,5,6,7,8,9,10,11;cfg=0..15;keys=%s;kalg=-1,0,1,4,7,8,10,14,15;pub=0,1;"
             "hdr=0..14,15,16,17,23,27,28,29,35,36,37,38,39,40,42,45,46,47,48,50,52,53,54,56,60;sig=0..4;op=v,g" % KEYS_QUICK)
 
 
